@@ -277,7 +277,9 @@ static Cmp compareArray(const Case& cs, const eref::Array& want, const eref::Arr
         return c;
     }
     if (want.name != got.name || want.type != got.type || want.count() != got.count()) { c.ok = eref::equal_exact(want, got, c.why); return c; }
-    for (int64_t k = 0; k < want.count(); ++k) {
+    double maxUnits = 0;
+    bool witnessOutsideKnownClass = false;
+    for (int64_t k = 0; k < want.count() && !witnessOutsideKnownClass; ++k) {
         double eu = 0; bool ok;
         if (want.type == eref::REAL) {
             ok = realClose(got.rv[k], want.rv[k], eu);
@@ -287,15 +289,18 @@ static Cmp compareArray(const Case& cs, const eref::Array& want, const eref::Arr
                 if (std::fabs(got.rtext[k] - (double)want.rv[k]) > hu * (1 + 1e-6)) ok = false;
             }
             if (!ok) snprintf(b, sizeof b, "element %lld: read %.9g, written %.9g", (long long)k, got.rv[k], want.rv[k]);
-            else rep.maxof(std::string("max_err_half_units_REAL_") + who, eu);
         } else {
             ok = doubClose(got.dv[k], want.dv[k], eu);
             if (!ok) snprintf(b, sizeof b, "element %lld: read %.17g, written %.17g", (long long)k, got.dv[k], want.dv[k]);
-            else rep.maxof(std::string("max_err_half_units_DOUB_") + who, eu);
         }
-        if (!ok && c.ok) { c.ok = false; c.firstBad = (long)k; c.why = b; }
-        if (!ok && want.type == eref::DOUB && !ixTruncClass(cs, want.dv[k])) { c.firstBad = (long)k; c.why = b; break; }   // prefer a witness outside the known class
+        if (ok) { maxUnits = std::max(maxUnits, eu); continue; }
+        // keep the first disagreement, but prefer a witness outside the known defect class
+        const bool known = want.type == eref::DOUB && ixTruncClass(cs, want.dv[k]);
+        if (c.ok || !known) { c.firstBad = (long)k; c.why = b; }
+        c.ok = false;
+        if (!known) witnessOutsideKnownClass = true;
     }
+    rep.maxof(std::string("max_err_in_half_units_of_last_digit_") + eref::type_name(want.type) + "_" + who, maxUnits);
     return c;
 }
 
